@@ -10,6 +10,9 @@ def run(ctx, rep):
     regexrules.rule_snapshot_ownership(ctx, rep, "C09-R4")
     regexrules.rule_positions_nonnegative(ctx, rep, "C09-R5")
     regexrules.rule_numeric_catch_all(ctx, rep, "C09-R6")
+    regexrules.rule_negated_handlers_fold_case_alike(ctx, rep, "C09-R7")
+    regexrules.rule_line_terminators(ctx, rep, "C09-R8")
+    regexrules.rule_quantifier_emitters(ctx, rep, "C09-R9")
     rep.undecided += [
         "backtracking priorities, capture reset and empty-iteration semantics for all (pattern, subject) pairs (differential property)",
     ]
